@@ -420,7 +420,12 @@ class Translator:
                     raise TransError('range over non-integers')
                 if len(a3) == 2:
                     return f'(py_range {a3[0][0]} {a3[1][0]} 1)', 'list:int'
-                return f'(py_range {a3[0][0]} {a3[1][0]} {a3[2][0]})', 'list:int'
+                step = e.args[0].args[2]
+                if isinstance(step, ast.Constant) and isinstance(step.value, int) and step.value > 0:
+                    return f'(py_range {a3[0][0]} {a3[1][0]} {a3[2][0]})', 'list:int'
+                if isinstance(step, ast.UnaryOp) and isinstance(step.op, ast.USub) and isinstance(step.operand, ast.Constant) and step.operand.value == 1:
+                    return f'(py_range_down {a3[0][0]} {a3[1][0]})', 'list:int'      # range(a, b, -1): a, a - 1, ..., b + 1
+                raise TransError('range with a step that is not a positive literal or -1')
             if isinstance(f, ast.Name) and f.id == 'list' and len(e.args) == 1 and not e.keywords and isinstance(e.args[0], ast.Call) \
                     and isinstance(e.args[0].func, ast.Name) and e.args[0].func.id == 'chain' and not e.args[0].keywords and e.args[0].args:
                 parts = [self.as_list(x, env, binds) for x in e.args[0].args]
@@ -566,6 +571,9 @@ class Translator:
             if isinstance(f, ast.Attribute):
                 v, t = self.expr(f.value, env, binds)
                 fn = self.fns.get(f'{t}.{f.attr}')
+                if fn is None and t == 'exon' and f'range.{f.attr}' in self.fns:
+                    v, t = f'(x_range {v})', 'range'       # an Exon is a UIntRange
+                    fn = self.fns[f'range.{f.attr}']
                 if fn is not None and getattr(fn, 'mutating', False):
                     raise TransError(f'call of the mutating method {t}.{f.attr}')
                 if fn is not None:
@@ -781,6 +789,19 @@ class Translator:
             body, tb = self.block(rest, env2)
             c = ' && '.join(cv for cv, _ in conds) or 'true'
             return f'match {v} with None => Err AssertionError | Some {cname(name)}_v => if {c} then {body} else Err AssertionError end', tb
+        if isinstance(st, ast.Assert) and isinstance(st.test, ast.BoolOp) and isinstance(st.test.op, ast.And) and all(
+                isinstance(x, ast.Compare) and len(x.ops) == 1 and isinstance(x.ops[0], ast.IsNot) and isinstance(x.left, ast.Name)
+                and isinstance(x.comparators[0], ast.Constant) and x.comparators[0].value is None and x.left.id in env and env[x.left.id][1].startswith('option:')
+                for x in st.test.values):
+            env2 = dict(env)
+            names = [x.left.id for x in st.test.values]
+            for n_ in names:
+                env2[n_] = (f'{cname(n_)}_v', env[n_][1][7:])
+            body, tb = self.block(rest, env2)
+            term = body
+            for n_ in reversed(names):
+                term = f'match {env[n_][0]} with None => Err AssertionError | Some {cname(n_)}_v => {term} end'
+            return term, tb
         if isinstance(st, ast.Assert):
             binds = []
             c, tc = self.expr(st.test, env, binds)
